@@ -43,7 +43,43 @@ let run_show (c : HlsMuxer.cfg) (evs : HlsMuxer.event list) : string =
           (if ops = [] then "-" else String.concat ";" (Stdlib.List.map show ops))
           (if files = [] then "-" else String.concat "," files)
 
+let parse_sev (s : string) : HlsServer.sev =
+  match String.split_on_char ':' s with
+  | ["N"] -> HlsServer.SvPub
+  | ["D"] -> HlsServer.SvStop
+  | ["T"] -> HlsServer.SvTick
+  | ["C"] -> HlsServer.SvFire
+  | ["P"; b] -> HlsServer.SvPatPmt (bytes_of_token b)
+  | [k; pts; dts; b; now; pk] when k = "A" || k = "V" ->
+    HlsServer.SvFeed (k = "A", z_of_token pts, z_of_token dts, b = "1", z_of_token now, bytes_of_token pk)
+  | _ -> failwith ("bad event " ^ s)
+
+let show_files (c : HlsMuxer.cfg) (ops : HlsFs.op list) : string =
+  let p x = str_of_bytes (HlsMuxer.render_path root c x) in
+  let fs = HlsFs.apply_all [] ops in
+  let files = Stdlib.List.sort compare
+      (Stdlib.List.map (fun (x, f) ->
+           Printf.sprintf "%s=%s:%s" (p x) (if f.HlsFs.fclosed then "c" else "o") (hex_of_bytes f.HlsFs.fdata)) fs) in
+  if files = [] then "-" else String.concat "," files
+
+let parse_cfg (stream : string) (cf : string) : HlsMuxer.cfg =
+  match Stdlib.List.map z_of_token (String.split_on_char ':' cf) with
+  | [ms; num; thr; mode] -> { HlsMuxer.c_stream = bytes_of_str stream; c_ms = ms; c_num = num; c_thr = thr; c_mode = mode }
+  | _ -> failwith "bad cfg"
+
 let register () =
+  (* the server level (ServerManager / Group / delayed cleanup): calls per event *)
+  Registry.register "c10.sm" (function
+      | [stream; cf; evs] ->
+        let c = parse_cfg stream cf in
+        let evs = if evs = "-" then [] else Stdlib.List.map parse_sev (String.split_on_char ',' evs) in
+        let groups = HlsServer.srv_run_ev c evs in
+        let show = show_op c in
+        Printf.sprintf "ev %s files %s"
+          (if groups = [] then "-" else
+             String.concat "|" (Stdlib.List.map (fun g -> if g = [] then "-" else String.concat ";" (Stdlib.List.map show g)) groups))
+          (show_files c (Stdlib.List.concat groups))
+      | _ -> "bad-args");
   Registry.register "c10.run" (function
       | [stream; cf; evs] ->
         let c = match Stdlib.List.map z_of_token (String.split_on_char ':' cf) with
